@@ -152,9 +152,10 @@ def check_pty(case, col=None):
     fate, how = case['fate'], case['how']
     cmd = command(fate, how, case.get('talk', False))
     child = pexpect.spawn(cmd[0], cmd[1:], timeout=20)
-    child.delayafterterminate = 0.02
-    child.ptyproc.delayafterterminate = 0.02
-    child.ptyproc.delayafterclose = 0.02
+    g_ = case.get('_grace')
+    child.delayafterterminate = g_ or 0.02
+    child.ptyproc.delayafterterminate = g_ or 0.02
+    child.ptyproc.delayafterclose = g_ or 0.02
     closed = False
     try:
         if how == 'kill':
@@ -163,7 +164,7 @@ def check_pty(case, col=None):
         elif how in ('terminate', 'terminate-stubborn'):
             if how == 'terminate-stubborn':
                 time.sleep(0.05)         # let sh install the trap and exec
-                child.delayafterterminate = 0.1
+                child.delayafterterminate = g_ or 0.1
             with guard('terminate(force=True)'):
                 r = child.terminate(force=True)
             if r is not True:
@@ -171,7 +172,7 @@ def check_pty(case, col=None):
         elif how in ('close', 'close-stubborn'):
             if how == 'close-stubborn':
                 time.sleep(0.05)
-                child.ptyproc.delayafterterminate = 0.1
+                child.ptyproc.delayafterterminate = g_ or 0.1
             with guard('close()'):
                 child.close()
             closed = True
@@ -334,7 +335,17 @@ def check_run(case, col=None):
 def check_case(case, col=None):
     tr = case['transport']
     if tr == 'pty':
-        check_pty(case, col)
+        try:
+            check_pty(case, col)
+        except Violation as v:
+            # the harness shortens pexpect's waits after each signal to 20 ms (100 ms for stubborn children); on a
+            # starved machine a child can need longer to die, and terminate()/close() then give up as documented:
+            # such a history is repeated once with a 1.5 s wait before it is reported
+            if v.key not in ('terminate-failed', 'still-alive', 'harness-child-did-not-die') or case.get('_grace'):
+                raise
+            if col is not None:
+                col.count('repeated_with_longer_delayafterterminate')
+            check_pty(dict(case, _grace=1.5), None)
     elif tr == 'popen':
         check_popen(case, col)
     else:
